@@ -792,6 +792,7 @@ void ExecOpInEnv(const EnvPlan &p, const Materials &m, const Op &op,
     ac.pad = false;
     ScribbleStack(0, true);
   }
+  if (AllocArenaEverywhere()) ac.ascending = !ac.descending;
   g_env_seed_state = mix64(env.seed, 0xc10c0000 + k);
   const uint64_t clock_before = g_env_clock_calls;
   // Containment of the harness itself (not an oracle): a faulted stream may
@@ -902,6 +903,7 @@ uint64_t RunPlan(const EnvPlan &p, const std::string &repo,
   mc.perturb = true;
   mc.fill_mode = 1;
   mc.pad = false;
+  mc.ascending = AllocArenaEverywhere();
   AllocBegin(mc);
   ScribbleStack(0, true);
   const bool have_materials = Materialise(p, repo, &m);
@@ -1021,6 +1023,7 @@ uint64_t RunPlan(const EnvPlan &p, const std::string &repo,
       gc.fill_mode = e == 1 ? 3 : (e == 2 ? 2 : 0);
       gc.env_seed = mix64(env.seed, 0x6e0);
       gc.descending = (e % 3) == 2;
+      if (AllocArenaEverywhere()) gc.ascending = !gc.descending;
       AllocBegin(gc);
       bool okg = true;
       for (const Workload &w : p.geoms) {
